@@ -173,7 +173,9 @@ class ModelRegistry:
         replaces = []
         replaces_ids = set()
         for group in groups:
-            model_meta = self._merge(generator, *group)
+            # Sets of models have no stable iteration order; merge members in registry order
+            order = {index: i for i, index in enumerate(self._registry)}
+            model_meta = self._merge(generator, *sorted(group, key=lambda m: order[m.index]))
             generator.optimize_type(model_meta)
             replaces_ids.add(model_meta.index)
             replaces.append((model_meta, group))
